@@ -246,7 +246,7 @@ def _expand_raws(min_size, max_size, v, block):
     # offset: the simplest draw (v == 0) is a typical length, not the shortest one
     n = min_size + ((v + 13) % span if span > 13 else v % span)
     if v % 8 == 7:
-        n = min(max_size, max(min_size, (v >> 3) % 4))  # one draw in eight: empty or very short
+        n = min(max_size, max(min_size, (v >> 3) % 3))  # one draw in eight: empty or very short
     return [((block[i % 8] << 8 | block[(i + 3) % 8]) + i * (2 * block[(i + 1) % 8] + 1) * 40503) & 0xFFFF for i in range(n)]
 
 
@@ -1211,9 +1211,7 @@ def st_table_spec():
         st.tuples(st.just("map"), st.lists(st.tuples(codon, st.integers(0, len(PROT) + 1)), min_size=1, max_size=5)),
     )
     plain_default = st.just({"base": ["default"], "mods": []})
-    return st.one_of(st.fixed_dictionaries({"base": base, "mods": st.lists(mod, max_size=3)}), plain_default).map(
-        lambda d: d if d["mods"] or d["base"][0] != "default" else {"base": ["default"], "mods": []}
-    )
+    return st.one_of(st.fixed_dictionaries({"base": base, "mods": st.lists(mod, max_size=3)}), plain_default)
 
 
 _AA_POOL = PROT + "**"
